@@ -81,7 +81,12 @@ CLAIM = ("Every call of cull / inline / inline_functions / fuse_linear / fuse / 
          "Held means no counterexample among the executions observed (complete for the small space named above).")
 CASE_TIMEOUT = 120
 
-PENDING = {}
+PENDING = {
+    "fuse:ave_width=inf:OverflowError@optimization.py:fuse":
+        "fuse(ave_width=inf) raises OverflowError (int(ave_width - 1)) whenever a fusion is refused below the top of a reduction",
+    "fuse_linear_task_spec:keys=some-not-str-named:evaluation-fails":
+        "a fused chain whose top key is not a str / (str, ...) key is stored under the key None and the top key becomes a self-alias",
+}
 
 FLOORS = {
     "quick": {"evaluations": 10, "distinct_nontrivial": 5},
@@ -188,12 +193,12 @@ def cases(tier, seed):
                "subsets": "all" if n <= 4 else "sample", "grid": "sample", "pseed": rng.randrange(2 ** 31),
                "mixed": True}
     # ---- C: random larger programs -----------------------------------------------------------------
-    for _ in range(500 if not thorough else 7000):
+    for _ in range(300 if not thorough else 7000):
         yield {"k": "random", "n": rng.randint(8, 40 if not thorough else 60), "pseed": rng.randrange(2 ** 31),
                "style": rng.choice(STYLES), "subsets": "sample", "grid": "sample", "mixed": rng.random() < 0.5,
                "rich": rng.random() < 0.7}
     # ---- D: borrowed graphs ----------------------------------------------------------------------------
-    for _ in range(120 if not thorough else 1500):
+    for _ in range(100 if not thorough else 1500):
         if rng.random() < 0.65:
             yield {"k": "borrowed", "coll": "array", "expr": rng.choice(BORROWED_ARRAY),
                    "shape": [rng.randint(2, 5), rng.randint(2, 5)], "chunks": [rng.randint(1, 3), rng.randint(1, 3)],
@@ -339,6 +344,9 @@ class Env:
             res, e = hit[1], hit[2]
         else:
             try:
+                broken = _not_executable(new, req)
+                if broken:      # never hand a cyclic / dangling graph to the executors (dask.get can hang on a cycle)
+                    raise _Broken(broken)
                 res, e = self.evaluate(new, req), None
             except Exception as exc:  # noqa: BLE001
                 if type(exc).__name__ == "CaseTimeout":
@@ -347,6 +355,7 @@ class Env:
             self.cache[sig] = (new, res, e)
         if e is not None:
             self.violation("%s:%s:evaluation-fails" % (op, feat),
+                           ("the returned graph cannot be executed for %r: %s" % (req, e)) if isinstance(e, _Broken) else
                            "computing %r from the returned graph raises %s: %s" % (req, type(e).__name__, _short(str(e), 300)),
                            call=call, returned=_short(new))
             return False
@@ -376,6 +385,38 @@ class Env:
         self.ctx.count("optimiser_calls")
         if len(self.ctx.violations) < MAXV:
             self.ctx.exception(exc, prefix="%s:%s" % (op, feat), call=call, program=self.describe[:40])
+
+
+class _Broken(Exception):
+    pass
+
+
+def _not_executable(dsk, req):
+    """Harness walk from the requested keys: a dependency that is not a key, or a dependency cycle."""
+    state = {}
+    for r in req:
+        if r in state:
+            continue
+        stack = [(r, None)]
+        while stack:
+            k, it = stack[-1]
+            if it is None:
+                if k not in dsk:
+                    return "dependency %r is not a key of the returned graph" % (k,)
+                state[k] = 1
+                it = iter(sorted(_true_deps(dsk, k), key=repr))
+                stack[-1] = (k, it)
+            for d in it:
+                st = state.get(d)
+                if st == 1:
+                    return "the returned graph has a dependency cycle through %r" % (d,)
+                if st is None:
+                    stack.append((d, None))
+                    break
+            else:
+                state[k] = 2
+                stack.pop()
+    return None
 
 
 _ATOMS = (str, int, float, bool, type(None), bytes)
